@@ -37,8 +37,11 @@ type dlCase struct {
 	Strategy  string   `json:"strategy"` // simple | precise | lookup | predicate
 	StratInit int      `json:"strat_init"`
 	PartInit  int      `json:"part_init,omitempty"` // lookup: limit argument the partition objects are constructed with
-	Limit     LimitCfg `json:"limit"`               // algo "script" = scripted trajectory below
-	Traj      []int    `json:"traj,omitempty"`      // scripted estimates: traj[i] after i OnSample calls (last repeats)
+	FracA     float64  `json:"frac_a,omitempty"`    // fractions of partitions a and b (0 = the defaults 0.5 / 0.25); c is a zero-percent partition
+	FracB     float64  `json:"frac_b,omitempty"`
+	Bulk      int      `json:"bulk,omitempty"` // >0: a fixed limit of that size is filled completely (int32/int16 corners)
+	Limit     LimitCfg `json:"limit"`          // algo "script" = scripted trajectory below
+	Traj      []int    `json:"traj,omitempty"` // scripted estimates: traj[i] after i OnSample calls (last repeats)
 	WinSize   int      `json:"win_size"`
 	WinMin    int64    `json:"win_min"`
 	WinMax    int64    `json:"win_max"`
@@ -79,6 +82,13 @@ func genDL(purpose string) func(t *rapid.T) dlCase {
 		}
 		c.StratInit = rapid.IntRange(1, 30).Draw(t, "stratInit")
 		c.PartInit = rapid.SampledFrom([]int{1, 1, 0, 4, 25}).Draw(t, "partInit")
+		if rapid.Bool().Draw(t, "genFrac") {
+			fr := rapid.OneOf(
+				rapid.Map(rapid.IntRange(1, 31), func(k int) float64 { return float64(k) / 64 }),
+				rapid.SampledFrom([]float64{0.1, 0.3, 0.33, 0.15, 0.10004, 1.0 / 3, 0.55555 / 2, 0.2, 0.07, 0.45}),
+			)
+			c.FracA, c.FracB = fr.Draw(t, "fracA"), fr.Draw(t, "fracB")
+		}
 		switch rapid.IntRange(0, 5).Draw(t, "limitKind") {
 		case 0:
 			c.Limit = genLimitCfg(t, []string{"aimd", "vegas", "gradient2"}, false)
@@ -93,6 +103,10 @@ func genDL(purpose string) func(t *rapid.T) dlCase {
 			}
 		case 1:
 			c.Limit = LimitCfg{Algo: "fixed", Initial: rapid.IntRange(1, 20).Draw(t, "fixed")}
+			if purpose == "c01" && rapid.IntRange(0, 40).Draw(t, "huge") == 0 {
+				c.Limit.Initial = rapid.SampledFrom([]int{300, 33000, 40000, 70000}).Draw(t, "hugeLimit")
+				c.Bulk = c.Limit.Initial
+			}
 		default:
 			c.Limit = LimitCfg{Algo: "script"}
 			small := rapid.IntRange(-5, 12)
@@ -187,6 +201,17 @@ func (b *dlBuilt) binBusy(i int) int {
 	return n
 }
 
+// frac returns the configured fraction of a bin of this case.
+func (c dlCase) frac(name string) float64 {
+	switch {
+	case name == "a" && c.FracA > 0:
+		return c.FracA
+	case name == "b" && c.FracB > 0:
+		return c.FracB
+	}
+	return stackBinFracs[name]
+}
+
 func buildDL(c dlCase, sc *sched) (*dlBuilt, error) {
 	b := &dlBuilt{reg: newRecRegistry()}
 	var st core.Strategy
@@ -200,7 +225,7 @@ func buildDL(c dlCase, sc *sched) (*dlBuilt, error) {
 	case "lookup":
 		m := map[string]*strategy.LookupPartition{}
 		for _, n := range dlBins {
-			m[n] = strategy.NewLookupPartitionWithMetricRegistry(n, stackBinFracs[n], int32(c.PartInit), b.reg)
+			m[n] = strategy.NewLookupPartitionWithMetricRegistry(n, c.frac(n), int32(c.PartInit), b.reg)
 		}
 		l, err := strategy.NewLookupPartitionStrategyWithMetricRegistry(m, nil, int32(c.StratInit), b.reg)
 		if err != nil {
@@ -211,7 +236,7 @@ func buildDL(c dlCase, sc *sched) (*dlBuilt, error) {
 	case "predicate":
 		var ps []*strategy.PredicatePartition
 		for _, n := range dlBins {
-			ps = append(ps, strategy.NewPredicatePartitionWithMetricRegistry(n, stackBinFracs[n], matchers.StringPredicateMatcher(n, false), b.reg))
+			ps = append(ps, strategy.NewPredicatePartitionWithMetricRegistry(n, c.frac(n), matchers.StringPredicateMatcher(n, false), b.reg))
 		}
 		p, err := strategy.NewPredicatePartitionStrategyWithMetricRegistry(ps, int32(c.StratInit), b.reg)
 		if err != nil {
@@ -343,9 +368,9 @@ func runDLInBubble(c dlCase, prop string) (out kit.Outcome) {
 		}
 		if b.lookup != nil || b.pred != nil {
 			for i, n := range dlBins {
-				w := dlShare(want, stackBinFracs[n])
+				w := dlShare(want, c.frac(n))
 				if got := b.binLimit(i); got != w {
-					o := kit.Viol(c.Strategy+":stale-share", "%s: partition %q share is %d, want max(1,ceil(%d*%v))=%d", when, n, got, want, stackBinFracs[n], w)
+					o := kit.Viol(c.Strategy+":stale-share", "%s: partition %q share is %d, want max(1,ceil(%d*%v))=%d", when, n, got, want, c.frac(n), w)
 					return &o
 				}
 				if v, ok := b.reg.gauge(core.MetricPartitionLimit, partTag(n)); !ok || int(v) != w {
@@ -366,6 +391,15 @@ func runDLInBubble(c dlCase, prop string) (out kit.Outcome) {
 	b.reg.take()
 
 	var evs []dlEv
+	if c.Bulk > 0 {
+		// fill a huge limit completely, one more must be refused, then release everything
+		for j := 0; j < c.Bulk+1; j++ {
+			evs = append(evs, dlEv{K: "acq", Key: "a"})
+		}
+		for j := 0; j < c.Bulk; j += 97 {
+			evs = append(evs, dlEv{K: "done", Idx: -1, Outcome: 1})
+		}
+	}
 	for _, e := range c.Evs {
 		if e.K != "cycle" {
 			evs = append(evs, e)
@@ -391,6 +425,9 @@ func runDLInBubble(c dlCase, prop string) (out kit.Outcome) {
 			}
 			smp := b.reg.take()
 			if prop == "c01" && (c.Strategy == "simple" || c.Strategy == "precise") {
+				if inForce := enforced(); L != inForce {
+					return kit.Viol(c.Strategy+":limit-in-force", "event %d: the limit in force is %d (the algorithm's estimate, floored at 1) but the strategy gates on %d", i, inForce, L)
+				}
 				want := busyBefore < L
 				if ok != want {
 					sig := "over-admission"
@@ -463,6 +500,18 @@ func runDLInBubble(c dlCase, prop string) (out kit.Outcome) {
 		if got := b.stratBusy(); got != len(held) {
 			return kit.Viol(c.Strategy+":busy", "after event %d (%s): strategy busy=%d, outstanding tokens=%d", i, e.K, got, len(held))
 		}
+		if prop == "c02" {
+			if g := int(b.lim.VerifInFlight()); g != len(held) {
+				return kit.Viol(c.Strategy+":limiter-gauge", "after event %d (%s): the limiter's in-flight gauge is %d, outstanding tokens=%d (windows closed so far: %d)", i, e.K, g, len(held), len(model.want))
+			}
+			if b.lookup != nil || b.pred != nil {
+				for k, n := range dlBins {
+					if got := b.binBusy(k); got != perKey[n] {
+						return kit.Viol(c.Strategy+":bin-busy", "after event %d (%s): bin %q busy=%d, outstanding tokens of that bin=%d", i, e.K, n, got, perKey[n])
+					}
+				}
+			}
+		}
 		if prop == "c05" {
 			if o := checkEnforcement(fmt.Sprintf("after event %d (%s)", i, e.K)); o != nil {
 				return *o
@@ -516,6 +565,8 @@ func runDLInBubble(c dlCase, prop string) (out kit.Outcome) {
 		}
 	case "c20":
 		out.NonTrivial = nWin >= 1 && len(evs) >= 20
+	case "c02":
+		out.NonTrivial = nWin >= 1 && releasedOnce
 	}
 	return out
 }
